@@ -126,6 +126,7 @@ def _detail(small):
 
 
 def check_algebra(case):
+    LO.set_container(case.get("ct"))
     r = R()
     sp, dt = case["tree"], case["dtype"]
     ctx = Ctx(dt)
@@ -228,6 +229,7 @@ def big_failures(sp, dt, pseed):
 
 
 def check_big(case):
+    LO.set_container(case.get("ct"))
     r = R()
     sp, dt = case["tree"], case["dtype"]
     IG = ("unbuildable", "leaf-unavailable")
